@@ -959,9 +959,13 @@ VECT_ENDIAN = {"alg/sha256.c": "be32", "alg/sha1.c": "be32", "alg/md5.c": "le32"
 
 
 def k11_vect(prog, rep, only=None):
-    """The word-vector helpers of the three hash units convert exactly len/4 words, word i at byte offset 4i, in the hash's byte
-    order (big-endian for SHA-1 and SHA-256, little-endian for MD5): the conversion call is controlled by i < len / 4 of an index that
-    starts at 0 and steps by one, the byte side is indexed 4i and the word side i, and the conversion routine is the unit's own."""
+    """The word-vector helpers of the three hash units convert exactly len/4 words, word k at byte offset 4k, in the hash's byte
+    order (big-endian for SHA-1 and SHA-256, little-endian for MD5).  Relational (sa/poly.py), whatever the loop's form (indexed,
+    pointer-walking, counting down): a ghost $k counts the conversions made so far; at the one conversion call the byte-side
+    address is (byte pointer at entry) + 4 $k and the word-side lvalue is at (word pointer at entry) + 4 $k; at every exit
+    4 $k <= len at entry <= 4 $k + 3; and the conversion routine is the unit's own."""
+    from .. import poly
+    from ..poly import Lin
     n = 0
     for up, pre in VECT_ENDIAN.items():
         if only is not None and up not in only:
@@ -974,33 +978,102 @@ def k11_vect(prog, rep, only=None):
                 continue
             enc = f.name.startswith(pre + "enc")
             want = pre + ("enc" if enc else "dec")
-            LEN = ("v", f.params[2]["name"], f.params[2]["id"])
+            P = [("v", p["name"], p["id"]) for p in f.params]
             cs = [c for c in f.calls() if c.callee and c.callee != "__assert_fail"]
             n += 1
-            ok = len(cs) == 1 and cs[0].callee == want
-            why = "calls: %s, expected one call of %s" % ([c.callee for c in cs], want)
+            inst = "%s in %s: len/4 words, word k at byte 4k, %s-endian" % (f.name, up, "big" if pre == "be32" else "little")
+            if not (len(cs) == 1 and cs[0].callee == want):
+                rep.bad("K11-vect", inst, f.loc, "calls: %s, expected one call of %s" % ([c.callee for c in cs], want), function=f.name, construct="vect")
+                continue
+            c = cs[0]
+            K, B0, W0, L0 = Lin.var(("$k",)), Lin.var(("$b0",)), Lin.var(("$w0",)), Lin.var(("$l0",))
+            bytep, wordp = (P[0], P[1]) if enc else (P[1], P[0])
+            A = poly.Analysis(f, assume=[("==", K, Lin.const(0)), ("==", B0, Lin.var(bytep)), ("==", W0, Lin.var(wordp)), ("==", L0, Lin.var(P[2]))],
+                              quiet={want, "__assert_fail"}, unsigned_terms={P[2]}, post={want: lambda A_, call, st, cs_: A_.bump(cs_, ("$k",), 1)})
+            A.any_ptr = True         # the word-side pointer (uint32_t *) takes part in the arithmetic too
+            A.run()
+
+            def address(e, esz):
+                """(Lin, state) of the address a pointer expression / an lvalue element designates, or None"""
+                x = e
+                while x is not None and x.cls in ("ImplicitCastExpr", "CStyleCastExpr", "ParenExpr") and x.kid(0) is not None and x.op != "LValueToRValue":
+                    x = x.kid(0)
+                if x is None:
+                    return None
+                st = A.state_before(c)
+                if x.cls == "ImplicitCastExpr" and x.op == "LValueToRValue":
+                    if (u.types.get(x.ty) or {}).get("kind") == "ptr":
+                        # a pointer variable read: its value is the address
+                        k = x.kid(0)
+                        if k is not None and k.cls == "UnaryOperator" and k.op in ("post++", "post--"):
+                            return address(k, esz)
+                        l = A.lin(x, st) if st is not None else None
+                        return (l, st) if l is not None else None
+                    # a value read: its address is that of the lvalue beneath
+                    return address_lv(x.kid(0), esz)
+                if x.cls == "UnaryOperator" and x.op in ("post++", "post--"):
+                    # the pointer's value before the step: in the state before the step when that comes before the conversion,
+                    # else (the target of `*p++ = conv(..)` is evaluated after the call) in the state before the conversion
+                    s0 = A.state_before(x) if (x.block.id == c.block.id and x.i < c.i) else A.state_before(c)
+                    l = A.lin(x.kid(0), s0) if s0 is not None else None
+                    return (l, s0) if l is not None else None
+                l = A.lin(x, st) if st is not None else None
+                return (l, st) if l is not None else None
+
+            def address_lv(x, esz):
+                while x is not None and x.cls in ("ParenExpr",) and x.kid(0) is not None:
+                    x = x.kid(0)
+                if x is None:
+                    return None
+                if x.cls == "ArraySubscriptExpr":
+                    b = address(x.kid(0), esz)
+                    i = A.lin(x.kid(1), b[1]) if b is not None else None
+                    sz = (u.types.get(x.ty) or {}).get("size") or esz
+                    return (b[0] + i.scale(sz), b[1]) if b is not None and i is not None else None
+                if x.cls == "UnaryOperator" and x.op == "*":
+                    k = x.kid(0)
+                    while k is not None and k.cls in ("ImplicitCastExpr", "ParenExpr") and k.op != "LValueToRValue" and k.kid(0) is not None:
+                        k = k.kid(0)
+                    if k is not None and k.cls == "ImplicitCastExpr" and k.op == "LValueToRValue" and k.kid(0) is not None and k.kid(0).cls == "UnaryOperator":
+                        k = k.kid(0)
+                    if k is not None and k.cls == "UnaryOperator" and k.op in ("post++", "post--"):
+                        return address(k, esz)
+                    return address(x.kid(0), esz)
+                return None
+            # the byte side is the conversion's pointer argument; the word side is its value argument (enc) or the lvalue its
+            # result is stored into (dec)
+            ba = address(c.arg(0), 1)
+            if enc:
+                wa = address(c.arg(1), 4) if c.arg(1) is not None else None
+            else:
+                stores = [e for e in f.all_elems() if e.is_assign and e.op == "=" and e.kid(1) is not None and e.kid(1).strip() is c]
+                wa = address_lv(stores[0].kid(0), 4) if len(stores) == 1 else None
+            why = ""
+            ok = ba is not None and wa is not None
+            if not ok:
+                why = "the addresses converted from and to are not something the analysis can follow"
+            else:
+                okb = A.holds(ba[1], "==", ba[0], B0 + K.scale(4))
+                okw = A.holds(wa[1], "==", wa[0], W0 + K.scale(4))
+                ok = okb and okw
+                if not ok:
+                    why = "conversion number k does not go %s byte offset 4k %s word k" % ("to" if enc else "from", "from" if enc else "to") + (" (byte side)" if not okb else " (word side)")
             if ok:
-                c = cs[0]
-                gs = [(op, L, f.expand(R)) for cond, truth in f.edge_conds(c) for op, L, R, _, _ in cond_atoms(cond, truth)]
-                idx = [L for op, L, R in gs if op == "<" and R in ((">>", LEN, ("c", 2)), ("/", LEN, ("c", 4)))]
-                iw = [e for e in f.all_elems() if idx and (e.is_assign or e.is_incdec) and norm(e.kid(0)) == idx[0]]
-                steady = bool(idx) and bool(iw) and all((e.is_assign and e.op == "=" and norm(e.kid(1)) == ("c", 0)) or (e.is_incdec and e.op in ("post++", "pre++")) for e in iw)
-                if not steady:
-                    ok, why = False, "the conversion is not controlled by i < len / 4 with i from 0 in steps of one: %s" % [(op, show(L), show(R)) for op, L, R in gs]
-                else:
-                    i = idx[0]
-                    D, S = ("v", f.params[0]["name"], f.params[0]["id"]), ("v", f.params[1]["name"], f.params[1]["id"])
-                    byteside = ("&", ("[]", D if enc else S, ("<<", i, ("c", 2))))
-                    alt = ("&", ("[]", D if enc else S, ("*", i, ("c", 4))))
-                    a0 = norm(c.arg(0))
-                    if enc:
-                        ok = a0 in (byteside, alt) and norm(c.arg(1)) == ("[]", S, i)
-                    else:
-                        st = [e for e in f.all_elems() if e.is_assign and e.op == "=" and e.kid(1) is not None and e.kid(1).strip() is c]
-                        ok = a0 in (byteside, alt) and len(st) == 1 and norm(st[0].kid(0)) == ("[]", D, i)
-                    why = "byte side %s, word side %s" % (show(a0), show(norm(c.arg(1))) if enc else [show(norm(e.kid(0))) for e in f.all_elems() if e.is_assign and e.kid(1) is not None and e.kid(1).strip() is c])
-            rep.check(ok, "K11-vect", "%s in %s: len/4 words, word i at byte 4i, %s-endian" % (f.name, up, "big" if pre == "be32" else "little"), f.loc, why,
-                      function=f.name, construct="vect")
+                sx = A.solver.IN.get(f.exit)
+                ok = sx is not None and A.holds(sx, "<=", K.scale(4), L0) and A.holds(sx, "<=", L0, K.scale(4) + Lin.const(3))
+                if not ok and sx is not None:
+                    # three-valued: refuted when some way of leaving the function has provably converted past len or left a whole
+                    # word unconverted; otherwise the count is beyond what the domain can establish for this loop form (a bound
+                    # held in a second pointer) and is recorded as assumed, the per-conversion placement above being decided
+                    wrong = any(A._entailsP(Pp, poly.cons(">=", K.scale(4), L0 + Lin.const(1))) or A._entailsP(Pp, poly.cons(">=", L0, K.scale(4) + Lin.const(4)))
+                                for Pp in (sx if poly._is_disj(sx) else [sx]))
+                    ptr_bound = any(b.cond is not None and b.cond.cls == "BinaryOperator" and b.cond.op in ("<", ">", "<=", ">=", "!=") and
+                                    all(k is not None and (u.types.get(k.ty) or {}).get("kind") == "ptr" for k in b.cond.kids[:2]) for b in f.blocks.values())
+                    if not wrong and ptr_bound:
+                        rep.unknown("K11-vect", inst, f.loc, "placement of every conversion decided; the number of conversions at the exit is not something the relational domain establishes for this loop form")
+                        continue
+                    why = "at an exit of the function 4 * (conversions made) is beyond len, or a whole word of len is left unconverted"
+            rep.check(ok, "K11-vect", inst, (c.where if why else f.loc), why, function=f.name, construct="vect")
     return n
 
 
